@@ -297,6 +297,13 @@ Theorem C12_randomization_any_factor : forall (rf rnd : Q) (cur : Z),
   delay_lo rf cur <= rand_value rf rnd cur <= delay_hi rf cur.
 Proof. exact rand_value_bounds_any_rf. Qed.
 
+(** the Logger is handed, call after call, the error of the re-invocation that just failed
+    (1..f in order) — never an earlier attempt's *)
+Theorem C12_logger_gets_last_error : forall c h e, has_log c = true ->
+  log_errs h (r_trace (retry c h e))
+  = map (fun k => snd (h k)) (seq 1 (failed_retries h (r_trace (retry c h e)))).
+Proof. exact retry_log_errs. Qed.
+
 (** MaxElapsedTime / cancellation under the fair-select contract (at most K races lost to a
     ready timer): once Done is ready at most K + 1 more iterations are entered — K retries, none
     after a wait, and the one that gives up.  (The unconditional statement stays
@@ -340,6 +347,7 @@ Print Assumptions C12_float64_incr_exact.
 Print Assumptions C12_float64_truncation_within_one.
 Print Assumptions C12_randomization_any_factor.
 Print Assumptions C12_gives_up_within_K_after_done.
+Print Assumptions C12_logger_gets_last_error.
 Print Assumptions C12_retry_after_context_end_only_without_wait.
 Print Assumptions C12_zero_wait_race_count.
 Print Assumptions C12_gives_up_within_K_zero_waits.
